@@ -1,14 +1,130 @@
+import Std.Data.HashMap
+import Crv.Reader
 import Crv.Driver.Util
-/-! Line-protocol driver for stream `rd` (stub: every op is `bad-op` until the model is wired in). -/
+/-!
+Line-protocol driver for stream `rd` (streaming CRL reader model).
+  rd frames <hex>            → `q <kind>:<off>:<len> …` : the leaf-decoder queries of an optimistic run
+  rd run <hex> <table>       → outcome line; table = `kind:off:len:answer,…` (answers of the real library)
+-/
 namespace Crv.Driver.Rd
+open Crv Crv.Driver
 
-/-- Model state carried between the lines of this stream. -/
 structure State where
   dummy : Unit := ()
 
 def init : State := {}
 
-/-- One line (already split into words, stream tag removed) → new state and the answer line. -/
-def step (s : State) (ws : List String) : State × String := (s, "bad-op")
+def kindName : QKind → String
+  | .alg => "alg" | .rdn => "rdn" | .utc => "utc" | .entry => "entry" | .exts => "exts"
+
+def kindOf? : String → Option QKind
+  | "alg" => some .alg | "rdn" => some .rdn | "utc" => some .utc | "entry" => some .entry | "exts" => some .exts
+  | _ => none
+
+def errName : Err → String
+  | .eof => "eof" | .tag => "tag" | .tooLong => "tooLong" | .decode => "decode" | .version => "version"
+  | .alg => "alg" | .gate => "gate" | .bitString => "bitString" | .negative => "negative"
+  | .stalled => "stalled" | .range => "range"
+
+def hashName : HashAlg → String
+  | .sha1 => "sha1" | .sha224 => "sha224" | .sha256 => "sha256" | .sha384 => "sha384" | .sha512 => "sha512"
+
+def oidToString (o : List Nat) : String := ".".intercalate (o.map toString)
+
+def parseOid (s : String) : Option (List Nat) :=
+  (s.splitOn ".").mapM (fun p => p.toNat?)
+
+def optimistic : Oracle :=
+  { algOid := fun _ => some [1, 2, 840, 113549, 1, 1, 11]
+    rdnOk := fun _ => true, utcOk := fun _ => true, entryOk := fun _ => true
+    exts := fun _ => some [] }
+
+def showQueries (qs : List Query) : String :=
+  " ".intercalate (qs.map fun q => s!"{kindName q.kind}:{q.off}:{q.len}")
+
+inductive Ans
+  | alg (o : Option (List Nat))
+  | ok (b : Bool)
+  | exts (e : Option (List Ext))
+
+def parseExt (s : String) : Option Ext :=
+  match s.splitOn "/" with
+  | [o, c, v] => do
+    let oid ← parseOid o
+    let crit ← (if c = "1" then some true else if c = "0" then some false else none)
+    let val ← parseHex v
+    pure ⟨oid, crit, val⟩
+  | _ => none
+
+def parseAns (k : QKind) (a : String) : Option Ans :=
+  match k with
+  | .alg => if a = "-" then some (.alg none) else (parseOid a).map (fun o => .alg (some o))
+  | .exts =>
+    if a = "-" then some (.exts none)
+    else if a = "*" then some (.exts (some []))
+    else ((a.splitOn ";").mapM parseExt).map (fun l => .exts (some l))
+  | _ => if a = "1" then some (.ok true) else if a = "0" then some (.ok false) else none
+
+abbrev Table := Std.HashMap (String × List UInt8) Ans
+
+def buildTable (file : Bytes) (spec : String) : Option Table :=
+  if spec = "-" then some {} else
+  (spec.splitOn ",").foldlM (init := ({} : Table)) fun t item =>
+    match item.splitOn ":" with
+    | [k, off, len, a] => do
+      let kind ← kindOf? k
+      let off ← off.toNat?
+      let len ← len.toNat?
+      let ans ← parseAns kind a
+      pure (t.insert (k, (file.drop off).take len) ans)
+    | _ => none
+
+def oracleOf (t : Table) : Oracle :=
+  { algOid := fun b => match t.get? ("alg", b) with | some (.alg o) => o | _ => none
+    rdnOk := fun b => match t.get? ("rdn", b) with | some (.ok v) => v | _ => false
+    utcOk := fun b => match t.get? ("utc", b) with | some (.ok v) => v | _ => false
+    entryOk := fun b => match t.get? ("entry", b) with | some (.ok v) => v | _ => false
+    exts := fun b => match t.get? ("exts", b) with | some (.exts e) => e | _ => none }
+
+def maxAlloc (as : List Alloc) : Nat := as.foldl (fun m a => max m a.size) 0
+
+/-- largest request not backed by the input that remained when it was made -/
+def maxUnbacked (as : List Alloc) : Nat := as.foldl (fun m a => if a.size > a.avail then max m a.size else m) 0
+
+def countInserts (evs : List Event) : Nat := evs.foldl (fun n e => match e with | .insert _ => n + 1 | _ => n) 0
+
+def showNum : Option Nat → String
+  | some n => toString n | none => "-"
+
+def showResult (file : Bytes) (t : Table) (rr : RunResult) : String :=
+  -- every query made must have an answer in the table (never default silently)
+  match rr.queries.find? (fun q => !(t.contains (kindName q.kind, (file.drop q.off).take q.len))) with
+  | some q => s!"oracle-missing {kindName q.kind}:{q.off}:{q.len}"
+  | none =>
+    let tail := s!" ins={countInserts rr.events} q={showQueries rr.queries} maxalloc={maxAlloc rr.allocs} unbacked={maxUnbacked rr.allocs} pos={rr.finalPos}"
+    match rr.outcome with
+    | .panic => "panic" ++ tail
+    | .err e => "err:" ++ errName e ++ tail
+    | .ok res =>
+      let num := match rr.events.getLast? with | some (.extMeta n) => showNum n | _ => "?"
+      let exts := match res.exts with | some es => toString es.length | none => "-"
+      s!"ok alg={oidToString res.algOid} hash={hashName res.hashAlg} num={num} exts={exts} " ++
+      s!"sig={rr.finalPos - res.sig.bytes.length},{res.sig.bytes.length},{res.sig.bitLen} " ++
+      s!"region={res.hashFrom},{res.hashRegion.length}" ++ tail
+
+def step (s : State) (ws : List String) : State × String :=
+  match ws with
+  | ["frames", h] =>
+    match parseHex h with
+    | some file => (s, "q " ++ showQueries (readCRL optimistic file).queries)
+    | none => (s, "bad-op")
+  | ["run", h, spec] =>
+    match parseHex h with
+    | some file =>
+      match buildTable file spec with
+      | some t => (s, showResult file t (readCRL (oracleOf t) file))
+      | none => (s, "bad-op")
+    | none => (s, "bad-op")
+  | _ => (s, "bad-op")
 
 end Crv.Driver.Rd
